@@ -45,7 +45,7 @@ def lit(rng, k):
     if k == "r64":
         return rng.choice(["1/2", "3/4", "5/3"])
     if k == "c64":
-        return rng.choice(["1+2i", "3-1i"])
+        return rng.choice(["1+2i", "3-1i", "0.5+4i", "-2+7i", "6-0.25i"])
     raise ValueError(k)
 
 
@@ -73,12 +73,12 @@ def arity_program(rng, k):
 
 def restricted_program(rng):
     """returns (stmts, has_assign)"""
-    k = rng.choice(["f64"] * 6 + INTK + ["f32", "bool", "string", "r64"])
+    k = rng.choice(["f64"] * 6 + INTK + ["f32", "bool", "string", "r64", "c64"])
     stmts = []
     has_assign = False
     form = rng.random()
     if form < 0.12:
-        return arity_program(rng, k)
+        return arity_program(rng, k if k != "c64" else "f64")
     form = rng.random()
     if k == "bool":
         stmts.append("a := %s" % lit(rng, k)); stmts.append("b := %s" % lit(rng, k))
@@ -91,6 +91,13 @@ def restricted_program(rng):
     ops = ["+", "-", "*", "/"] + (["%", "^"] if k in ("f64", "u8", "u16", "u32") else []) + ["<", ">", "<=", ">=", "==", "!="]
     if k == "r64":
         ops = ["+", "-", "*", "/", "<", ">", "==", "!="]
+    if k == "c64":
+        # scalars only: a complex MATRIX panics in run_program like a rational one (finding r64-matrix-run-panic)
+        ops = ["+", "-", "*", "==", "!="]
+        stmts.append("a := %s" % lit(rng, k)); stmts.append("b := %s" % lit(rng, k))
+        op = rng.choice(ops)
+        stmts.append(rng.choice(["c := a %s b", "c := b %s a", "a %s b", "c := a %s %s" % ("%s", lit(rng, k)), "d := a", "-a"]).replace("%s", op))
+        return stmts, False
     if form < 0.3:
         stmts.append("a := %s" % lit(rng, k)); stmts.append("b := %s" % lit(rng, k))
         op = rng.choice(ops)
